@@ -1,11 +1,69 @@
-import PyresampleModel.Model.Core
+import PyresampleModel.Model.Grid
 
 /-
-  C11 — model (stub: not built yet).
+  C11 — cropping one area around another.
+  * same CRS: `_subset._get_slice_starts_stops` (Python `round`, orientation xor, clamps),
+    `check_slice_orientation`, `_ensure_integer_slice`
+  * different CRS: `AreaSlicer._create_slices_from_bounds` + `expand_slice` on the array-coordinate
+    bounds of the (buffered) polygon — the polygon itself (shapely, reprojection) is data
+  * swaths: `SwathSlicer._assemble_slices`
 -/
 namespace PyresampleModel.C11
 
+open Grid
+
+def maxI (a b : Int) : Int := if a ≤ b then b else a
+def minI (a b : Int) : Int := if a ≤ b then a else b
+
+/-- one axis of `_get_slice_starts_stops`, x flavour: `u0 = array coordinate of the target's lower-left x`,
+`u1 = of its upper-right x`, `flip = (src.x0 > src.x1) xor (llx > urx)` -/
+def startStopX (n : Nat) (u0 u1 : Rat) (flip : Bool) : Int × Int :=
+  if flip then (maxI 0 (roundHalfEven u1), minI n (roundHalfEven u0 + 1))
+  else (maxI 0 (roundHalfEven u0), minI n (roundHalfEven u1 + 1))
+
+/-- y flavour (array rows grow downwards): `v0 = array coordinate of lly`, `v1 = of ury`,
+`flip = (src.y0 > src.y1) xor (lly > ury)` -/
+def startStopY (n : Nat) (v0 v1 : Rat) (flip : Bool) : Int × Int :=
+  if flip then (maxI 0 (roundHalfEven v0), minI n (roundHalfEven v1 + 1))
+  else (maxI 0 (roundHalfEven v1), minI n (roundHalfEven v0 + 1))
+
+/-- `get_area_slices` for two areas on the same CRS: (x_start, x_stop, y_start, y_stop) -/
+def sameCrsSlices (src : Grid) (llx lly urx ury : Rat) : Int × Int × Int × Int :=
+  let fx := (decide (src.x0 > src.x1)) != (decide (llx > urx))
+  let fy := (decide (src.y0 > src.y1)) != (decide (lly > ury))
+  let sx := startStopX src.w (src.arrX llx) (src.arrX urx) fx
+  let sy := startStopY src.h (src.arrY lly) (src.arrY ury) fy
+  (sx.1, sx.2, sy.1, sy.2)
+
+/-- `_create_slices_from_bounds` + `expand_slice` on one axis: bounds `lo ≤ hi` in array coordinates -/
+def boundsSlice (lo hi : Rat) : Int × Int :=
+  let start := pyFloor (if lo < 0 then 0 else lo)
+  let stop := pyCeil hi
+  (maxI (start - 1) 0, stop + 1)
+
+/-- `SwathSlicer._assemble_slices` on one axis -/
+def assemble (slices : List (Int × Int)) : Option (Int × Int) :=
+  match slices with
+  | [] => none
+  | s :: rest => some (rest.foldl (fun acc t => (minI acc.1 t.1, maxI acc.2 t.2)) s)
+
+/-! ### driver -/
+open Wire
+
 def handle : List String → Option String
+  | "samecrs" :: rest => do
+    let (g, tl) ← grid? rest
+    match tl with
+    | [a, b, c, d] =>
+      let a ← rat? a; let b ← rat? b; let c ← rat? c; let d ← rat? d
+      if g.w = 0 ∨ g.h = 0 ∨ g.dx = 0 ∨ g.dy = 0 then some "err:degenerate" else
+      let r := sameCrsSlices g a b c d
+      some s!"{r.1} {r.2.1} {r.2.2.1} {r.2.2.2}"
+    | _ => none
+  | ["bounds", lo, hi] => do
+    let lo ← rat? lo; let hi ← rat? hi
+    let r := boundsSlice lo hi
+    some s!"{r.1} {r.2}"
   | _ => none
 
 end PyresampleModel.C11
